@@ -5,7 +5,7 @@ package internal
 // C04 — the chunked reader alone, three-way: Lean model (`decodeChunked`) vs the fork's
 // NewChunkedReader vs Go's reference reader (net/http/httputil.NewChunkedReader, which is
 // net/http/internal's), on generated chunked streams, for read-buffer sizes {16,64,4096} and
-// several caller read sizes.  Unlike the whole-response lane this one sees the reader's own
+// several caller read sizes; the error KIND (eof | chunk | toolong) is part of the answer.  Unlike the whole-response lane this one sees the reader's own
 // error/EOF verdict (no trailer reader behind it).
 
 import (
@@ -66,13 +66,29 @@ func c04ChunkRun(mk func(io.Reader) io.Reader, stream []byte, B, seg, readSize i
 			rest, _ := io.ReadAll(br)
 			out = "eof body=" + verifh.Hex(string(body)) + " rest=" + verifh.Hex(string(rest))
 		} else {
-			out = "err body=" + verifh.Hex(string(body))
+			out = "err:" + c04ChunkErrClass(err) + " body=" + verifh.Hex(string(body))
 		}
 	})
 	if p {
 		return "panic " + txt
 	}
 	return out
+}
+
+// c04ChunkErrClass maps a reader error to the canonical class (texts are those of
+// net/http/internal of go1.23.5, which the fork copies).
+func c04ChunkErrClass(err error) string {
+	msg := err.Error()
+	switch {
+	case err == io.ErrUnexpectedEOF:
+		return "eof"
+	case msg == "header line too long":
+		return "toolong"
+	case msg == "malformed chunked encoding", msg == "empty hex number for chunk length", msg == "invalid byte in chunk length",
+		msg == "http chunk length too large", msg == "chunked encoding contains too much non-data":
+		return "chunk"
+	}
+	return "other(" + msg + ")"
 }
 
 func c04ChunkClassOf(body []byte, B int) string {
@@ -246,7 +262,7 @@ func TestVerif_C04_chunk(t *testing.T) {
 		if len(h) > 400 {
 			h = h[:400] + "…"
 		}
-		s.Case("c04chunk 4096 "+verifh.Hex(probes[cls]), pf, pf == pr, cls, true, h)
+		s.Case("c04chunkE 4096 "+verifh.Hex(probes[cls]), pf, pf == pr, cls, true, h)
 		if present[cls] {
 			s.Count("defect-present:" + cls)
 		}
@@ -304,6 +320,9 @@ func TestVerif_C04_chunk(t *testing.T) {
 			kind := strings.SplitN(base, " ", 2)[0]
 			s.Count(kind)
 			reached[kind]++
+			if strings.HasPrefix(kind, "err:") {
+				reached["err"]++
+			}
 			human := "B=" + strconv.Itoa(B) + " " + strconv.QuoteToASCII(stream)
 			if len(human) > 300 {
 				human = human[:300] + "…"
@@ -318,11 +337,11 @@ func TestVerif_C04_chunk(t *testing.T) {
 				}
 				human += " BUT " + note
 			}
-			s.Case("c04chunk "+strconv.Itoa(B)+" "+verifh.Hex(stream), base, agree, class, !strings.Contains(base, "body=_"), human)
+			s.Case("c04chunkE "+strconv.Itoa(B)+" "+verifh.Hex(stream), base, agree, class, !strings.Contains(base, "body=_"), human)
 		}
 	}
 	s.Finish()
-	for _, need := range []string{"eof", "err", "gen:ext", "gen:ext-long", "gen:size-empty", "gen:size-bad", "gen:hex16", "gen:bad-crlf", "gen:cut", "gen:mutated", "gen:excess-long-ext", "gen:excess-many"} {
+	for _, need := range []string{"eof", "err", "err:eof", "err:chunk", "err:toolong", "gen:ext", "gen:ext-long", "gen:size-empty", "gen:size-bad", "gen:hex16", "gen:bad-crlf", "gen:cut", "gen:mutated", "gen:excess-long-ext", "gen:excess-many"} {
 		if reached[need] == 0 {
 			t.Errorf("C04/chunk never reached %q", need)
 		}
